@@ -140,6 +140,7 @@ def run(ctx):
         try: db.disconnect()
         except Exception: pass
     run_strings(ctx)
+    run_counts(ctx)
 
 
 # ---------------------------------------------------------------- string indexing / slicing: per-dialect ASTs on the C25 evaluator
@@ -165,6 +166,9 @@ def expand_ast(db, node):
     if node and node[0] == 'PARAM':
         key = node[1]
         return ['PARAM', str(key[0][1]) if isinstance(key, (list, tuple)) and isinstance(key[0], (list, tuple)) else str(key)]
+    if node and node[0] in ('GT', 'LE') and len(node) == 3:
+        # the C25 evaluator has GE / LT only:  a > b  ==  b < a,   a <= b  ==  b >= a
+        return [{'GT': 'LT', 'LE': 'GE'}[node[0]], expand_ast(db, node[2]), expand_ast(db, node[1])]
     if node and node[0] == 'STRING_SLICE':
         cls = db.provider.sqlbuilder_cls
         r = _tolist(cls.STRING_SLICE(_RecBuilder(db.provider.dialect), node[1], node[2], node[3]))
@@ -262,7 +266,9 @@ def run_strings(ctx):
             prov = m[2]
             if 'driver_error' in out:
                 ctx.count('strings:node-outside-evaluator:' + prov)
-                if len(ctx.notes) < 3: ctx.note('C25 evaluator: %s' % str(out)[:200])
+                # every AST of this stream is inside the evaluator on the unchanged tree: a new node kind means the emitted SQL changed
+                ctx.divergence('the %s translator emits a node the dialect evaluator does not know for a string index / slice' % prov,
+                               {'query': 'select((w.id, %s) for w in W)' % m[0]}, model=str(out)[:300], impl=None)
                 continue
             if shape != 'index' and guard_class(DIALECT_NAME[prov], r['text'], A[1], B[1] if B else 'o', i, j):
                 ctx.count('strings:outside-C25-guard:' + prov); continue
@@ -284,6 +290,94 @@ def run_strings(ctx):
     for db, W in dbs.values():
         try: db.disconnect()
         except Exception: pass
+
+
+# ---------------------------------------------------------------- count() of composite-key entities: dialect statements on the same data
+
+def run_counts(ctx):
+    """`count(x)` of an entity with a composite primary key in a grouped query, reached through a many-to-many table (multi-hop) or a
+    composite foreign key, with data where one entity is reached through several link rows of a group.  SQLite executes its own
+    statement for real; the statement the real PostgreSQL translator + builder emit (offline provider) is executed on the SAME SQLite
+    data after rewriting its row-value COUNT(DISTINCT (a, b)) into COUNT(DISTINCT a || x'1f' || b) — an emulation of PostgreSQL's
+    documented semantics (identifiers are case-insensitive in SQLite, no parameters occur); Oracle's statement (COUNT(DISTINCT ROWID))
+    runs on SQLite unchanged.  SQLite and PostgreSQL must agree with each other and with Python; Oracle disagreements are counted."""
+    import re
+    from pony.orm import Database, Required, Optional, Set, PrimaryKey, count
+    rng = ctx.rng
+    ponyutil.add_stubs()
+    from pony.orm.tests.testutils import TestDatabase
+    def mk(prov):
+        db = Database() if prov == 'sqlite' else TestDatabase()
+        class Group(db.Entity):
+            id = PrimaryKey(int)
+            students = Set('Student')
+        class Course(db.Entity):
+            name = Required(str)
+            sem = Required(int)
+            PrimaryKey(name, sem)
+            students = Set('Student')
+            lessons = Set('Lesson')
+        class Student(db.Entity):
+            id = PrimaryKey(int)
+            group = Required(Group)
+            courses = Set(Course)
+        class Lesson(db.Entity):
+            id = PrimaryKey(int)
+            course = Required(Course)
+            room = Required(int)
+        db.bind(prov, ':memory:' if prov != 'oracle' else 'user/pwd@host')
+        if prov == 'sqlite': db.generate_mapping(create_tables=True)
+        else: db.generate_mapping(check_tables=False)
+        return db, dict(Group=Group, Course=Course, Student=Student, Lesson=Lesson, select=select, count=count)
+    QUERIES = [
+        ("select((g.id, count(c)) for g in Group for s in g.students for c in s.courses)", lambda G, C, S, L: [(g.id, len({c for s in g.students for c in s.courses})) for g in G if any(s.courses for s in g.students)]),
+        ("select((l.room, count(l.course)) for l in Lesson)", lambda G, C, S, L: [(r, len({l.course for l in L if l.room == r})) for r in {l.room for l in L}]),
+        ("select((g.id, count(g.students.courses)) for g in Group)", lambda G, C, S, L: [(g.id, len({c for s in g.students for c in s.courses})) for g in G]),
+        ("select((s.id, count(c)) for s in Student for c in s.courses)", lambda G, C, S, L: [(s.id, len(s.courses)) for s in S if s.courses]),
+        ("select((c.name, count(c)) for c in Course)", lambda G, C, S, L: [(n, sum(1 for c in C if c.name == n)) for n in {c.name for c in C}]),
+        ("select((c.name, c.sem, count(c.students)) for c in Course)", lambda G, C, S, L: [(c.name, c.sem, len(c.students)) for c in C]),
+        ("select((s.group.id, count(c)) for s in Student for c in s.courses if c.sem > 0)", lambda G, C, S, L: [(g.id, len({c for s in g.students for c in s.courses if c.sem > 0})) for g in G if any(c.sem > 0 for s in g.students for c in s.courses)]),
+    ]
+    others = {p: mk(p) for p in ('postgres', 'oracle')}
+    for rd in range(ctx.scale(4, 30)):
+        db, ns = mk('sqlite')
+        with db_session:
+            G = [ns['Group'](id=i) for i in (1, 2, 3)]
+            C = [ns['Course'](name=n, sem=m) for n, m in rng.sample([('a', 1), ('a', 2), ('b', 1), ('b', 2)], rng.choice([2, 3, 4]))]
+            for i in range(rng.choice([3, 5, 7])):
+                ns['Student'](id=i + 1, group=rng.choice(G[:2]), courses=rng.sample(C, rng.randint(1, len(C))))
+            for i in range(rng.choice([3, 5, 8])):
+                ns['Lesson'](id=i + 1, course=rng.choice(C[:2]), room=rng.choice([1, 1, 2]))
+        with db_session:
+            G_, C_, S_, L_ = (list(ns[n].select()) for n in ('Group', 'Course', 'Student', 'Lesson'))
+            data = {'students (id, group, courses)': [(s.id, s.group.id, sorted(c.get_pk() for c in s.courses)) for s in S_], 'lessons (room, course)': [(l.room, l.course.get_pk()) for l in L_]}
+            for qsrc, ref in QUERIES:
+                exp = sorted(ref(G_, C_, S_, L_))
+                ctx.case(['counts', qsrc, rd], kind='counts')
+                res = {}
+                try: res['sqlite'] = sorted(tuple(r) for r in eval(qsrc, ns))
+                except Exception as ex: ctx.count('counts:sqlite:raises:' + type(ex).__name__)
+                con = db.get_connection()
+                for prov, (odb, ons) in others.items():
+                    try:
+                        with db_session:
+                            sql = eval(qsrc, ons).get_sql()
+                    except Exception as ex:
+                        ctx.count('counts:%s:raises:%s' % (prov, type(ex).__name__)); continue
+                    if prov == 'postgres':
+                        sql2 = re.sub(r'case when \(([^()]*?), ([^()]*?)\) IS NULL then null else \(\1, \2\) end', r"(\1 || x'1f' || \2)", sql)
+                        if 'case when (' in sql2 or '%(' in sql2: ctx.count('counts:postgres:statement-not-emulated'); continue
+                    else: sql2 = sql
+                    try: res[prov] = sorted(tuple(r) for r in con.execute(sql2).fetchall())
+                    except Exception as ex: ctx.count('counts:%s:emulation-fails:%s' % (prov, type(ex).__name__))
+                ctx.count('counts:compared')
+                core_res = {k: v for k, v in res.items() if k in ('sqlite', 'postgres')}
+                if len({json.dumps(v) for v in core_res.values()}) > 1 or any(v != exp for v in core_res.values()):
+                    ctx.violation('count() of a composite-key entity: SQLite, PostgreSQL (its statement on the same data) and Python disagree',
+                                  dict(data, query=qsrc), observed=core_res, expected={'python': exp}, key='count-composite-key:' + qsrc)
+                if 'oracle' in res and res['oracle'] != exp:
+                    ctx.count('counts:suspected:oracle-statement-differs'); ctx.extra.setdefault('suspected_oracle_count', {'query': qsrc, 'oracle statement on the same data': res['oracle'][:4], 'python': exp[:4]})
+        db.disconnect()
 
 
 def _nodes(ast):
